@@ -290,6 +290,7 @@ type caseOutcome struct {
 	fail         *binFail
 	inconclusive string
 	scenarios    map[string]int // per program
+	scnClass     map[string]int // "<prog>/scn:<class>" -> count
 	otherProps   map[string]int
 }
 
@@ -302,7 +303,7 @@ func tailStr(s string, n int) string {
 
 // runCase generates, builds and runs one package.
 func runCase(p *PackageSpec, prop string, scn int, race bool, tag string, replayInner string) *caseOutcome {
-	out := &caseOutcome{scenarios: map[string]int{}, otherProps: map[string]int{}}
+	out := &caseOutcome{scenarios: map[string]int{}, otherProps: map[string]int{}, scnClass: map[string]int{}}
 	work := *flagWork
 	if work == "" {
 		work = os.TempDir()
@@ -434,11 +435,30 @@ func runCase(p *PackageSpec, prop string, scn int, race bool, tag string, replay
 				continue
 			}
 			var ll struct {
-				Prog  string   `json:"prog"`
-				Other []string `json:"other"`
+				Prog   string   `json:"prog"`
+				Other  []string `json:"other"`
+				Gate   bool     `json:"gate"`
+				Faults int      `json:"faults"`
+				Cancel int      `json:"cancel"`
+				G      int      `json:"g"`
 			}
 			if json.Unmarshal([]byte(line), &ll) == nil {
 				out.scenarios[ll.Prog]++
+				if ll.Gate {
+					out.scnClass[ll.Prog+"/scn:gate"]++
+				}
+				if ll.Faults > 0 {
+					out.scnClass[ll.Prog+"/scn:faults"]++
+				}
+				if ll.Faults >= 2 {
+					out.scnClass[ll.Prog+"/scn:faults>=2"]++
+				}
+				if ll.Cancel > 0 {
+					out.scnClass[ll.Prog+"/scn:cancel"]++
+				}
+				if ll.G > 1 {
+					out.scnClass[ll.Prog+"/scn:concurrent-executions"]++
+				}
 				for _, x := range ll.Other {
 					out.otherProps[x]++
 				}
@@ -494,12 +514,13 @@ func rapidSeedFor(p *PackageSpec, tag string) uint64 {
 }
 
 type binLogLine struct {
-	H      string          `json:"h"`
-	NT     bool            `json:"nt"`
-	N      int             `json:"n"`
-	Labels []string        `json:"labels,omitempty"`
-	Sample json.RawMessage `json:"sample,omitempty"`
-	Other  []string        `json:"other,omitempty"`
+	H      string           `json:"h"`
+	NT     bool             `json:"nt"`
+	N      int              `json:"n"`
+	Labels []string         `json:"labels,omitempty"`
+	Sample json.RawMessage  `json:"sample,omitempty"`
+	Other  []string         `json:"other,omitempty"`
+	Extra  map[string]int64 `json:"extra,omitempty"`
 }
 
 // TestBin is the outer loop of engine E-BIN.
@@ -582,6 +603,14 @@ func TestBin(t *testing.T) {
 		if logf != nil {
 			for _, s := range p.Specs() {
 				ll := binLogLine{H: specHash(s), NT: nonTrivialSpec(prop, s), N: oc.scenarios[s.Name], Labels: specLabels(s), Other: others}
+				for k, v := range oc.scnClass {
+					if strings.HasPrefix(k, s.Name+"/") {
+						if ll.Extra == nil {
+							ll.Extra = map[string]int64{}
+						}
+						ll.Extra[strings.TrimPrefix(k, s.Name+"/")] = int64(v)
+					}
+				}
 				if ll.NT && samples < 2 {
 					samples++
 					ll.Sample = json.RawMessage(s.JSON())
